@@ -6,6 +6,7 @@ import argparse, glob, json, os, re, subprocess, sys, time
 ap = argparse.ArgumentParser()
 ap.add_argument('--tier', default='quick'); ap.add_argument('--only', default='.'); ap.add_argument('--checks', default=None)
 ap.add_argument('--extra-args', default='')
+ap.add_argument('--scratch', default=None, help='apply the change in this scratch worktree of /repo (PETL_REPO) instead of /repo itself')
 a = ap.parse_args()
 rows = []
 for d in sorted(glob.glob('/verif/seeded/*')):
@@ -14,9 +15,10 @@ for d in sorted(glob.glob('/verif/seeded/*')):
         continue
     meta = json.load(open(d + '/meta.json'))
     checks = a.checks.split(',') if a.checks else [meta['breaks_property']]
-    st = subprocess.run('git -C /repo status --porcelain --untracked-files=no', shell=True, stdout=subprocess.PIPE).stdout.decode().strip()
-    assert not st, '/repo not clean: ' + st
-    ap_ = subprocess.run(['git', '-C', '/repo', 'apply', d + '/patch.diff'], stdout=subprocess.PIPE, stderr=subprocess.STDOUT)
+    R = a.scratch or '/repo'
+    st = subprocess.run('git -C %s status --porcelain --untracked-files=no' % R, shell=True, stdout=subprocess.PIPE).stdout.decode().strip()
+    assert not st, R + ' not clean: ' + st
+    ap_ = subprocess.run(['git', '-C', R, 'apply', d + '/patch.diff'], stdout=subprocess.PIPE, stderr=subprocess.STDOUT)
     res = {}
     try:
         if ap_.returncode != 0:
@@ -25,14 +27,14 @@ for d in sorted(glob.glob('/verif/seeded/*')):
             for c in checks:
                 t0 = time.time()
                 cmd = ['./verify', 'check', c, '--tier', a.tier] + a.extra_args.split()
-                p = subprocess.run(cmd, cwd='/verif', stdout=subprocess.PIPE, stderr=subprocess.STDOUT)
+                p = subprocess.run(cmd, cwd='/verif', stdout=subprocess.PIPE, stderr=subprocess.STDOUT, env=dict(os.environ, PETL_REPO=R))
                 out = p.stdout.decode('utf-8', 'replace')
                 jobs = re.findall(r'^  job=(\S+) :: (.*)$', out, re.M)
                 res['%s@%s' % (c, a.tier)] = dict(tier=a.tier, exit=p.returncode, detected=(p.returncode == 1 and 'VIOLATION property=' in out),
                               violating_jobs=[j for j, _ in jobs][:6], first_message=(jobs[0][1][:240] if jobs else ''),
                               wall_s=round(time.time() - t0))
     finally:
-        subprocess.run('git -C /repo checkout -- .', shell=True)
+        subprocess.run('git -C %s checkout -- .' % R, shell=True)
     meta.setdefault('detected_by', None)
     db = meta['detected_by'] if isinstance(meta['detected_by'], dict) else {}
     db.update(res)
